@@ -241,7 +241,9 @@ class _DecisionTreeLogisticRegressionNode:
         besti = None
         beta_best = None
         for i in range(begin, N - begin):
-            beta = -sorted_df[i]
+            # the border goes halfway between two consecutive observations:
+            # on an observation, rounding errors would decide of its side
+            beta = -(sorted_df[i] + sorted_df[min(i + 1, N - 1)]) / 2
             like = numpy.sum(likelihood(decision_function + beta, y)) / N
             w = float(i * (N - i)) / N**2
             like += w * dtlr.gamma
